@@ -161,16 +161,23 @@ func (g *generator) nextFocus(r *run, dt int, workerTask, taskDigest map[string]
 		h := g.rng.Intn(3)
 		key := fmt.Sprintf("%d/%d/%d.0", w.pqID(ints(q.comps), q.plat), sc, h)
 		report := "i"
+		retry := 0
 		if task, ok := workerTask[key]; ok && task != "-" {
 			switch g.rng.Pick(80, 15, 5) {
 			case 0:
 				g.nextTok++
 				report = fmt.Sprintf("c:%s:0:0:%d", taskDigest[task], g.nextTok)
+				if len(q.sizes) > 1 && g.rng.Chance(1, 4) {
+					// the action fails and is queued again on the largest size class with the
+					// expected duration the learner returns (re-sorting among what is queued there)
+					report = fmt.Sprintf("c:%s:0:1:%d", taskDigest[task], g.nextTok)
+					retry = 1
+				}
 			case 1:
 				report = "e:" + taskDigest[task]
 			}
 		}
-		return fmt.Sprintf("%d sync %s %d %d %d.0 %s 0 sel=0 bg=- retry=0", dt, q.comps, q.plat, sc, h, report), true
+		return fmt.Sprintf("%d sync %s %d %d %d.0 %s 0 sel=0 bg=- retry=%d", dt, q.comps, q.plat, sc, h, report, retry), true
 	}
 	return "", false
 }
